@@ -821,20 +821,21 @@ fn walk_paths(run: &Run, d: &mut Drv, base: &str, base_pos: &Pos, cur: &Pos, mov
 
 pub fn c17(run: &Run) -> (u64, u64) {
     let quick = run.quick();
+    let e = usize::from(!quick); // thorough: one ply more everywhere
     let fens: Vec<(&str, usize)> = vec![
-        ("startpos", if quick { 2 } else { 3 }),
-        ("fen r3k2r/8/8/8/8/8/8/R3K2R w KQkq - 0 1", 3),
-        ("fen r3k2r/8/8/8/8/8/8/R3K2R b KQkq - 5 20", 3),
-        ("fen 4k3/3p1p2/8/4P3/4p3/8/3P1P2/4K3 w - - 0 1", 3),
-        ("fen 4k3/3p1p2/8/4P3/4p3/8/3P1P2/4K3 b - - 0 1", 3),
-        ("fen rnbqkbnr/ppp1p1pp/8/3pPp2/8/8/PPPP1PPP/RNBQKBNR w KQkq f6 0 3", 2),
-        ("fen r3k2r/1P4P1/8/8/8/8/1p4p1/R3K2R w KQkq - 0 1", if quick { 2 } else { 3 }),
-        ("fen r3k2r/1P4P1/8/8/8/8/1p4p1/R3K2R b KQkq - 0 1", if quick { 2 } else { 3 }),
-        ("fen 1n1rk3/2P5/8/8/8/8/5p2/3RK1N1 w - - 0 1", 3),
-        ("fen 8/P6k/8/8/8/8/7K/8 w - - 7 50", 4),
-        ("fen r3k2r/p1ppqpb1/bn2pnp1/3PN3/1p2P3/2N2Q1p/PPPBBPPP/R3K2R w KQkq -", 2),
-        ("fen 8/2p5/3p4/KP5r/1R3p1k/8/4P1P1/8 w - -", 3),
-        ("fen 4k3/8/8/8/8/8/4P3/4K2R b K - 99 60", 3),
+        ("startpos", 3 + e),
+        ("fen r3k2r/8/8/8/8/8/8/R3K2R w KQkq - 0 1", 3 + e),
+        ("fen r3k2r/8/8/8/8/8/8/R3K2R b KQkq - 5 20", 3 + e),
+        ("fen 4k3/3p1p2/8/4P3/4p3/8/3P1P2/4K3 w - - 0 1", 4 + e),
+        ("fen 4k3/3p1p2/8/4P3/4p3/8/3P1P2/4K3 b - - 0 1", 4 + e),
+        ("fen rnbqkbnr/ppp1p1pp/8/3pPp2/8/8/PPPP1PPP/RNBQKBNR w KQkq f6 0 3", 2 + e),
+        ("fen r3k2r/1P4P1/8/8/8/8/1p4p1/R3K2R w KQkq - 0 1", 3 + e),
+        ("fen r3k2r/1P4P1/8/8/8/8/1p4p1/R3K2R b KQkq - 0 1", 3 + e),
+        ("fen 1n1rk3/2P5/8/8/8/8/5p2/3RK1N1 w - - 0 1", 3 + e),
+        ("fen 8/P6k/8/8/8/8/7K/8 w - - 7 50", 4 + e),
+        ("fen r3k2r/p1ppqpb1/bn2pnp1/3PN3/1p2P3/2N2Q1p/PPPBBPPP/R3K2R w KQkq -", 2 + e),
+        ("fen 8/2p5/3p4/KP5r/1R3p1k/8/4P1P1/8 w - -", 3 + e),
+        ("fen 4k3/8/8/8/8/8/4P3/4K2R b K - 99 60", 3 + e),
     ];
     let n = AtomicU64::new(0);
     par_for(fens.len(), |i| {
@@ -854,8 +855,33 @@ pub fn c17(run: &Run) -> (u64, u64) {
         let mut mv = vec![];
         walk_paths(run, &mut d, base, &base_pos, &base_pos.clone(), &mut mv, depth, 97, &n);
     });
+    // every subset of castling rights in the FEN root, both sides, one ply of moves
+    let mut right_bases: Vec<String> = vec![];
+    for placement in ["r3k2r/pppppppp/8/8/8/8/PPPPPPPP/R3K2R", "r3k2r/8/8/8/8/8/8/R3K2R"] {
+        for mask in 0..16 {
+            for side in ["w", "b"] {
+                let mut r = String::new();
+                for (i, ch) in ['K', 'Q', 'k', 'q'].iter().enumerate() {
+                    if mask & (1 << i) != 0 {
+                        r.push(*ch);
+                    }
+                }
+                if r.is_empty() {
+                    r.push('-');
+                }
+                right_bases.push(format!("fen {placement} {side} {r} - 0 1"));
+            }
+        }
+    }
+    par_for(right_bases.len(), |i| {
+        let base = &right_bases[i];
+        let base_pos = Pos::from_fen(base.trim_start_matches("fen ")).unwrap();
+        let Ok(mut d) = Drv::new(1) else { return };
+        let mut mv = vec![];
+        walk_paths(run, &mut d, base, &base_pos, &base_pos.clone(), &mut mv, 2, 0, &n);
+    });
     let a = n.load(Ordering::Relaxed);
-    run.family("POSITION-PATHS", &format!("every game (path) of length <= d from the start position and {} FENs (both castlings for both sides, en passant, all four promotion pieces incl. capturing promotions, with and without counters), each sent as one `position ... moves ...` line; every 97th followed by go depth 1", fens.len() - 1), a, a, true, "");
+    run.family("POSITION-PATHS", &format!("every game (path) of length <= d from the start position and {} FENs (both castlings for both sides, en passant, all four promotion pieces incl. capturing promotions, with and without counters), each sent as one `position ... moves ...` line; every 97th followed by go depth 1; plus 2 placements x all 16 castling-right subsets x both sides to depth 2", fens.len() - 1), a, a, true, "");
     // long deterministic games, every prefix
     let n2 = AtomicU64::new(0);
     let policies = ["first", "last", "middle", "capture-first"];
